@@ -69,11 +69,11 @@ def gidx(x):
     return int(str(x).lstrip("g"))
 
 
-def build_g(o, style, via="init"):
+def build_g(o, style, via="init", sdt=float, names=None):
     """o = {'pos': [[score, group], ...] (argument order), 'neg': ..., 'sc', 'ec'}"""
     from score_analysis import GroupScores
-    ps = np.array([G(p[0]) for p in o["pos"]], dtype=float)
-    ns = np.array([G(p[0]) for p in o["neg"]], dtype=float)
+    ps = np.array([G(p[0]) for p in o["pos"]], dtype=float).astype(sdt)
+    ns = np.array([G(p[0]) for p in o["neg"]], dtype=float).astype(sdt)
     pg = np.array([gname(p[1], style) for p in o["pos"]])
     ng = np.array([gname(p[1], style) for p in o["neg"]])
     if via == "from_labels_sorted":
@@ -90,7 +90,8 @@ def build_g(o, style, via="init"):
         return GroupScores.from_labels(labels[order], np.concatenate([ps, ns])[order],
                                        np.concatenate([pg, ng])[order], pos_label=1,
                                        score_class=o["sc"], equal_class=o["ec"])
-    return GroupScores(ps, ns, pos_groups=pg, neg_groups=ng, score_class=o["sc"], equal_class=o["ec"])
+    kw = {} if not names else {"group_names": [gname(i, style) for i in names]}
+    return GroupScores(ps, ns, pos_groups=pg, neg_groups=ng, score_class=o["sc"], equal_class=o["ec"], **kw)
 
 
 def alpha_g(s, inv):
@@ -117,11 +118,12 @@ class Beh:
         self.evs.append(e)
         return e
 
-    def new(self, o, style, h=1, via="init"):
-        e = self.ev("NewG", h=h, args={"pos": o["pos"], "neg": o["neg"], "sc": o["sc"], "ec": o["ec"]},
-                    via=via, style=style, post=dict(EMPTY_G))
+    def new(self, o, style, h=1, via="init", sdt=float, names=None):
+        e = self.ev("NewG", h=h, args={"pos": o["pos"], "neg": o["neg"], "sc": o["sc"], "ec": o["ec"],
+                                       "names": list(names or [])},
+                    via=via, style=style, post=dict(EMPTY_G), score_dtype=np.dtype(sdt).name)
         try:
-            s = build_g(o, style, via)
+            s = build_g(o, style, via, sdt, names)
             e["post"] = alpha_g(s, self.inv)
             return s
         except Exception as ex:  # noqa
@@ -158,7 +160,14 @@ class Beh:
                 for name in METRICS:
                     a = np.asarray(getattr(s, "group_" + name)(th))
                     e["metrics"][name] = [[gamma.proj_rat(x, 1000) for x in row] for row in a]
-                    b = np.asarray(groupwise(name)(s, threshold=th))
+                    if self.cid % 2 and name in ("fnr", "fpr"):
+                        # the same metric as a user callable that returns integers where the rate is 0 or 1
+                        def intish(sc_, threshold, name=name):
+                            v = np.asarray(getattr(sc_, name)(threshold))
+                            return v.astype(int) if np.all(np.isin(v, [0.0, 1.0])) else v
+                        b = np.asarray(groupwise(intish)(s, threshold=th))
+                    else:
+                        b = np.asarray(groupwise(name)(s, threshold=th))
                     e["groupwise"][name] = [[gamma.proj_rat(x, 1000) for x in row] for row in b]
         except Exception as ex:  # noqa
             e["exc"] = sd.exc_str(ex)
@@ -309,8 +318,16 @@ def run(ctx: core.Ctx):
             # a group without positives: only replacement sampling is defined on its empty class
             method, strat = ["replacement", "dynamic"][(k // 4) % 2], ["by_group", "none", "by_label"][(k // 8) % 3]
         c = {"method": method, "strat": strat}
-        cases.append({"kind": "seeded", "input": a, "cfg": c, "np_seed": int(ctx.seed + k), "style": style})
-        s = b.new(a, style, via="from_labels" if k % 2 else "init")
+        # score dtype: float64, or compact unsigned / signed integers (handed over unsorted)
+        sdt = [float, np.uint8, float, np.int8, np.uint16][k % 5]
+        cases.append({"kind": "seeded", "input": a, "cfg": c, "np_seed": int(ctx.seed + k), "style": style,
+                      "sdt": np.dtype(sdt).name})
+        # explicitly given group names, in an order that is not the sorted one
+        names = None
+        if k % 2 == 0 and k % 3 == 1 and ng >= 2:
+            names = list(range(ng))[::-1] if ng == 2 else [1, 2, 0][:ng]
+        cases[-1]["names"] = names
+        s = b.new(a, style, via="from_labels" if k % 2 else "init", sdt=sdt, names=names)
         if s is not None:
             order = list(range(ng))
             rnd.shuffle(order)
@@ -395,7 +412,8 @@ def replay(ctx: core.Ctx, body):
     if small:
         set_switch(2)
     try:
-        s = b.new(c["input"], c.get("style", "int"), via=c.get("via", "init"))
+        s = b.new(c["input"], c.get("style", "int"), via=c.get("via", "init"), sdt=np.dtype(c.get("sdt", "float64")).type,
+                  names=c.get("names"))
         if s is not None:
             if c.get("via") == "from_labels_sorted" or c.get("style") == "bigint":
                 for g_ in sorted({p_[1] for p_ in c["input"]["pos"] + c["input"]["neg"]}):
